@@ -167,3 +167,55 @@ func vh_compile_metadata() {
 	}
 	vObserve("pk", len(t.PartitionKey))
 }
+
+// (4) MapScanCAS / MapExecuteBatchCAS read the "[applied]" column of whatever rows result came back:
+// a result without that column (the statement was not conditional), or a row that could not be read
+// (body shorter than declared), is an error for the caller, not a panic in its goroutine.
+var vCASIter *Iter
+
+func vstubQueryIter(q *Query) *Iter                      { return vCASIter }
+func vstubSessionExecuteBatch(s *Session, b *Batch) *Iter { return vCASIter }
+
+func vh_map_scan_cas() {
+	nat := func(t Type) NativeType { return NativeType{proto: 4, typ: t} }
+	hasApplied := vBool("result_has_applied_column")
+	appliedVal := vBool("applied")
+	truncated := vBool("row_is_cut_short")
+	var cols []ColumnInfo
+	e := &vEnc{}
+	if hasApplied {
+		cols = append(cols, ColumnInfo{Keyspace: "k", Table: "t", Name: "[applied]", TypeInfo: nat(TypeBoolean)})
+		v := byte(0)
+		if appliedVal {
+			v = 1
+		}
+		e.bytes([]byte{v}, false)
+	}
+	cols = append(cols, ColumnInfo{Keyspace: "k", Table: "t", Name: "a", TypeInfo: nat(TypeInt)})
+	e.bytes([]byte{0, 0, 0, 5}, false)
+	body := e.b
+	if truncated {
+		body = body[:vChoose("kept", len(body))]
+	}
+	mk := func() *Iter {
+		return &Iter{framer: &framer{proto: 4, buf: append([]byte(nil), body...), header: &frameHeader{version: 0x84, op: opResult}}, numRows: 1,
+			meta: resultMetadata{columns: cols, colCount: len(cols), actualColCount: len(cols)}}
+	}
+	vCASIter = mk()
+	q := &Query{stmt: "UPDATE t SET a=5 WHERE k=1 IF a=4", session: &Session{}}
+	dest := map[string]interface{}{}
+	applied, err := q.MapScanCAS(dest)
+	if hasApplied && !truncated {
+		vAssert(err == nil && applied == appliedVal, "C05/cas/applied-is-what-the-row-says")
+	} else {
+		vAssert(err != nil && !applied, "C05/cas/a-result-without-a-readable-applied-column-is-an-error")
+	}
+	vCASIter = mk()
+	dest2 := map[string]interface{}{}
+	applied2, _, err2 := (&Session{}).MapExecuteBatchCAS(&Batch{}, dest2)
+	if hasApplied && !truncated {
+		vAssert(err2 == nil && applied2 == appliedVal, "C05/cas/applied-is-what-the-row-says")
+	} else {
+		vAssert(err2 != nil && !applied2, "C05/cas/a-result-without-a-readable-applied-column-is-an-error")
+	}
+}
